@@ -17,10 +17,10 @@ theorem Prog.Safe_bind_post {p : Prog (Except Code α × Handle)}
   | ret a => exact hg a hp hq
   | ub u => exact hp
   | sread reg n k ih =>
-    intro r
+    intro r hr
     cases r with
-    | ok v => exact ih _ f (hp _) (hq.1 v)
-    | error c => exact ih _ true (hp _) (hq.2 c)
+    | ok v => exact ih _ f (hp _ hr) (hq.1 v)
+    | error c => exact ih _ true (hp _ hr) (hq.2 c)
   | rread reg k ih =>
     intro r
     cases r with
